@@ -38,4 +38,10 @@ CHECKS["C04"] = {
     "note": "Trusted: R2 recogniser; any string reported is first re-checked with R1, the generic ABNF engine (disagreement = machinery error, exit 2).",
     "technique": T_EXH,
 }
+CHECKS["C05"] = {
+    "text": "A finite product is enumerated completely: 39 probe functions (every signature {V,L,N}^n -> {V,L,N}, n<=2) + the 5 built-ins + an unknown name, each in 14 syntactic positions (test, under !, inside &&/||, in parentheses, either comparand, argument of a V/L/N parameter, inside nested filters) with 21 argument shapes per parameter; wrong arities; 400 operand pairs x 2 comparison operators; integers at bound-1/bound/bound+1 of three configured ranges in 14 index/slice slots. compile() on an environment holding the probe registry must succeed exactly when the reference typing judgement says so, must raise a JSONPathError otherwise, and must never call a registered function. 186 538 queries per run.",
+    "ref": "DESIGN.md section 5, C05",
+    "note": "Trusted: mc/ref/typing.py (RFC 2.4.3) checked against the RFC well-typedness table in the self-test; R1 re-checks grammar membership of every reported query. One open known finding (F-C05-1).",
+    "technique": T_EXH,
+}
 PENDING = {}
